@@ -372,3 +372,52 @@ def order_eq_rule(ctx: Ctx) -> None:
 @rule("C02.R6", "equality of orders is identity within a book (consistent with the strict order: distinct orders are never equal)", "T6/T9", floor=2)
 def r6(ctx: Ctx) -> None:
     order_eq_rule(ctx)
+
+
+@rule("C02.H1", "mechanism shared with C13: hooks that may rewrite a pending order run before the order is handed to the market in both phases (afterwards its sort keys are frozen)", "T5 ordering (the acceptance part of C13.R3)", floor=4)
+def h1(ctx: Ctx) -> None:
+    from .c13 import check_call_sites
+
+    check_call_sites(ctx, {"accept"})
+
+
+def check_order_ids(ctx: Ctx) -> None:
+    """ids are what breaks ties: each accepted order gets an id no earlier order of the market has"""
+    from ..kit import caller_ok
+    from ..terms import diff_const
+
+    ws = ctx.cg.writers_of("Market", "_next_order_id")
+    for w in ws:
+        ok = caller_ok(ctx, w.func, lambda g: g.qualname in ("Market.__init__", "Market._add_order"))
+        ctx.check(ok, w.func, w.node, "writer of the market's order-id counter", "Market.__init__ (start) | Market._add_order (advance)", w.func.qualname + (": setting the counter again lets new orders reuse ids of resting ones" if not ok else ""))
+    f = ctx.func("Market._add_order")
+    n = 0
+    for p in normal_paths(ctx.paths(f.qualname)):
+        ids = [e for e in stores(p, "order_id") if key(strip_ver(e.base)) == "order"]
+        cnt = [e for e in stores(p, "_next_order_id") if key(strip_ver(e.base)) == "self"]
+        if not ids and not cnt:
+            continue
+        n += 1
+        if len(ids) != 1 or len(cnt) != 1:
+            ctx.violated(f, f.node, "an accepted order gets one id and the counter moves once", "order.order_id = counter; counter += 1", f"{len(ids)} id store(s), {len(cnt)} counter store(s)")
+            continue
+        given = strip_ver(ids[0].value)
+        new = strip_ver(cnt[0].value)
+        old = strip_ver(cnt[0].cur) if cnt[0].cur is not None else ("attr", ("sym", "self"), "_next_order_id")
+        cands = list(new[2]) if new[0] == "call" and key(new[1]) == "max" else [new]
+        d_given = [diff_const(c, given) for c in cands]
+        d_old = [diff_const(c, old) for c in cands]
+        above_given = any(d is not None and d >= 1 for d in d_given)
+        not_below_old = any(d is not None and d >= 0 for d in d_old) or (given == old and above_given)
+        if above_given and not_below_old:
+            ctx.holds(f, cnt[0].node, "the counter ends above the id just given and never goes back", "counter' >= id + 1, counter' >= counter", short(new))
+        elif any(d == 0 for d in d_given) and not above_given:
+            ctx.violated(f, cnt[0].node, "the counter ends above the id just given", "counter' >= id + 1", f"{short(new)} can equal the id just given ({short(given)}): the next order gets the same id")
+        else:
+            ctx.unrec(f, cnt[0].node, "the counter ends above the id just given and never goes back", "relation between the new counter and the id not decided", f"id={short(given)}, counter'={short(new)}")
+    ctx.require(n >= 1, "Market._add_order: numbering path not found")
+
+
+@rule("C02.R7", "order ids are unique within a market and grow with acceptance: the counter is only started by the constructor and advanced past every id handed out", "T1 who-may-write + T7 difference", floor=2)
+def r7(ctx: Ctx) -> None:
+    check_order_ids(ctx)
